@@ -2,6 +2,7 @@ SPECIFICATION Spec
 CONSTANTS
   Flushers = {F1, F2, F3}
   Writer = W
+  SharedResult = TRUE
   WatchDone = TRUE
 INVARIANTS TypeOK OwnResult AtMostOneWaiter
 PROPERTIES EveryCallReturns LiveCallServed
